@@ -4,7 +4,7 @@
    signals with a value table, the kind only; the full statement is
    Acme.C10.Proofs.import_signal_faithful_full_statement. *)
 From Coq Require Import String ZArith List.
-From Acme.C10 Require Import DbcDoc BusModel Import Bits BitsProofs Proofs ProofsEnum ProofsLayout ProofsFaithful ProofsMux ProofsExtMux ProofsDecode ProofsIds ProofsEnumMux ProofsAttrs ProofsAttrsAll ProofsTraverse ProofsAttrsSig ProofsExtAbs ProofsGroups ProofsDecodeMux.
+From Acme.C10 Require Import DbcDoc BusModel Import Bits BitsProofs Proofs ProofsEnum ProofsLayout ProofsFaithful ProofsMux ProofsExtMux ProofsDecode ProofsIds ProofsEnumMux ProofsAttrs ProofsAttrsAll ProofsTraverse ProofsAttrsSig ProofsExtAbs ProofsGroups ProofsDecodeMux ProofsAttrsExact.
 Import ListNotations.
 Open Scope Z_scope.
 
@@ -233,6 +233,19 @@ Theorem import_ext_mux_abs : forall d b, import d = Ok b ->
   Forall2 (fun dm m => ext_mux_abs dm (m_signals m)) (d_messages d) (b_messages b).
 Proof. exact ProofsExtAbs.import_ext_mux_abs. Qed.
 Print Assumptions import_ext_mux_abs.
+
+(* attribute assignments of NODES and MESSAGES, exactly (completeness and last-line-wins; import_attributes_spec
+   is the soundness direction): the assignments of an imported node are the BA_ BU_ lines that name it (the
+   placeholder node takes none), in file order, each read with `attr_value` under the imported definition and kept
+   when it conforms, a later line of the same attribute replacing the earlier one (`assign`); the user assignments
+   of an imported message are, in the same way, the BA_ BO_ lines with its CAN-ID whose attribute is not a
+   well-known one (those set the dedicated fields: import_message_fields) *)
+Theorem import_node_message_attributes_exact : forall d b, import d = Ok b ->
+  exists amap, def_map d = Ok amap /\
+    Forall (fun n => n_attrs n = fold_left (node_step amap (n_name n)) (d_attrvals d) []) (b_nodes b) /\
+    Forall (fun m => m_attrs m = fold_left (msg_step amap (m_canid m)) (d_attrvals d) []) (b_messages b).
+Proof. exact ProofsAttrsExact.import_node_message_attributes_exact. Qed.
+Print Assumptions import_node_message_attributes_exact.
 
 (* layout validity INSIDE multiplexers, every message, every nesting depth: two children of one multiplexer
    that share a group (a child without group list is fixed and shares every group) do not overlap, every
